@@ -152,3 +152,21 @@ def write_json(path, obj):
 
 def assumptions_of(vo_target_log):
     return vo_target_log
+
+
+def load_known(pid):
+    """entries of known_findings.json for one property (the file is never written at run time)"""
+    path = os.path.join(VERIF, 'known_findings.json')
+    if not os.path.exists(path):
+        return []
+    with open(path) as f:
+        data = json.load(f)
+    return [k for k in data.get('findings', []) if pid in k.get('properties', [])]
+
+
+def matches_known(witness, known):
+    """a witness is covered by a recorded finding only when its class is one that finding lists (status 'known' only)"""
+    for k in known:
+        if k.get('status') == 'known' and witness.get('cls') in k.get('witness_classes', []):
+            return True
+    return False
